@@ -1,6 +1,8 @@
 package c03
 
 import (
+	"sync/atomic"
+	"sync"
 	"context"
 	"fmt"
 	"sort"
@@ -30,6 +32,15 @@ func TestBurstConvergence(t *testing.T) {
 			nids = n
 		}
 		backdate := rapid.IntRange(0, 2).Draw(t, "backdate") // 0: never, 1: every 7th write, 2: every write, decreasing
+		// further writers write ids of their own (every id has ONE writer, so the order of its changes is never in
+		// question and the listed multi-writer finding cannot be involved), and short-lived subscribers come and go
+		// meanwhile: neither may cost a long-lived subscriber an event
+		nwriters := 1
+		churners := 0
+		if !isValue {
+			nwriters = rapid.SampledFrom([]int{1, 1, 2, 3}).Draw(t, "writers")
+			churners = rapid.SampledFrom([]int{0, 0, 2, 4}).Draw(t, "churners")
+		}
 		deletes := rapid.Bool().Draw(t, "deletes")
 		type sub struct {
 			updatesOnly, backpressure, masked bool
@@ -60,6 +71,23 @@ func TestBurstConvergence(t *testing.T) {
 		}
 		ctx, cancel := context.WithCancel(context.Background())
 		defer cancel()
+		// subscribers that were there before everybody else and leave somewhere in the middle of the burst
+		type leaver struct {
+			at     int
+			cancel context.CancelFunc
+		}
+		var leavers []leaver
+		if !isValue {
+			for i := 0; i < rapid.IntRange(0, 3).Draw(t, "earlyLeavers"); i++ {
+				lctx, lcancel := context.WithCancel(ctx)
+				ch := col.Pull(lctx, resource.WithBackpressure(i%2 == 0))
+				go func() {
+					for range ch {
+					}
+				}()
+				leavers = append(leavers, leaver{at: rapid.IntRange(0, n-1).Draw(t, "leavesAt"), cancel: lcancel})
+			}
+		}
 		views := make([]*view, nsubs)
 		done := make([]chan struct{}, nsubs)
 		const sentinel = int32(-77)
@@ -114,30 +142,89 @@ func TestBurstConvergence(t *testing.T) {
 			}
 		}
 		// the burst
-		at := int64(1 << 20)
+		var wmu sync.Mutex
 		written := map[string]bool{}
-		for k := 0; k < n; k++ {
-			var wopts []resource.WriteOption
-			if backdate == 2 || (backdate == 1 && k%7 == 3) {
-				at -= 3
-				wopts = append(wopts, resource.WithWriteTime(writeTimeBase.Add(time.Duration(at)*time.Second)))
-			}
-			m := &testproto.ForeignMessage{C: int32(k + 1), D: 7}
-			var err error
-			if isValue {
-				_, err = val.Set(m, wopts...)
-			} else {
-				id := fmt.Sprintf("id-%05d", (k*7919)%nids)
-				if deletes && k%5 == 4 {
-					_, err = col.Delete(id, append(wopts, resource.WithAllowMissing(true))...)
+		var werr atomic.Value
+		writer := func(w int) {
+			at := int64(1 << 20)
+			for k := 0; k < n; k++ {
+				if w == 0 {
+					for _, l := range leavers {
+						if l.at == k {
+							l.cancel()
+						}
+					}
+				}
+				var wopts []resource.WriteOption
+				if backdate == 2 || (backdate == 1 && k%7 == 3) {
+					at -= 3
+					wopts = append(wopts, resource.WithWriteTime(writeTimeBase.Add(time.Duration(at)*time.Second)))
+				}
+				m := &testproto.ForeignMessage{C: int32(k + 1), D: 7}
+				if k%11 == 5 {
+					m = &testproto.ForeignMessage{} // the empty message is a value like any other
+				}
+				var err error
+				if isValue {
+					_, err = val.Set(m, wopts...)
 				} else {
-					_, err = col.Update(id, m, append(wopts, resource.WithCreateIfAbsent())...)
-					written[id] = true
+					id := fmt.Sprintf("id-%05d", (k*7919)%nids)
+					if w > 0 {
+						id = fmt.Sprintf("w%d-%s", w, id)
+					}
+					if deletes && k%5 == 4 {
+						_, err = col.Delete(id, append(wopts, resource.WithAllowMissing(true))...)
+					} else {
+						_, err = col.Update(id, m, append(wopts, resource.WithCreateIfAbsent())...)
+						wmu.Lock()
+						written[id] = true
+						wmu.Unlock()
+					}
+				}
+				if err != nil {
+					werr.CompareAndSwap(nil, fmt.Sprintf("writer %d write %d failed: %v", w, k, err))
+					return
 				}
 			}
-			if err != nil {
-				t.Fatalf("write %d failed: %v", k, err)
-			}
+		}
+		stopChurn := make(chan struct{})
+		var churnWG sync.WaitGroup
+		for c := 0; c < churners; c++ {
+			c := c
+			churnWG.Add(1)
+			go func() {
+				defer churnWG.Done()
+				for round := 0; ; round++ {
+					select {
+					case <-stopChurn:
+						return
+					default:
+					}
+					cctx, ccancel := context.WithCancel(ctx)
+					ch := col.Pull(cctx, resource.WithBackpressure((c+round)%2 == 0), resource.WithUpdatesOnly(round%3 == 0))
+					for i := 0; i < (c+round)%7; i++ {
+						select {
+						case <-ch:
+						case <-time.After(time.Millisecond):
+						}
+					}
+					ccancel()
+					for range ch { // until closed
+					}
+				}
+			}()
+		}
+		var writersWG sync.WaitGroup
+		for w := 0; w < nwriters; w++ {
+			w := w
+			writersWG.Add(1)
+			go func() { defer writersWG.Done(); writer(w) }()
+		}
+		writersWG.Wait()
+		close(stopChurn)
+		churnWG.Wait()
+		if e := werr.Load(); e != nil {
+			t.Fatalf("%v", e)
 		}
 		var want map[string]*testproto.ForeignMessage
 		if isValue {
@@ -162,7 +249,7 @@ func TestBurstConvergence(t *testing.T) {
 			}
 			want["zz-sentinel"] = &testproto.ForeignMessage{C: sentinel, D: 7}
 		}
-		desc := fmt.Sprintf("isValue=%v writes=%d distinctIDs=%d backdate=%d deletes=%v subs=%+v", isValue, n, nids, backdate, deletes, subs)
+		desc := fmt.Sprintf("isValue=%v writers=%d (disjoint ids) x writes=%d distinctIDs=%d backdate=%d deletes=%v churningSubscribers=%d earlyLeavers=%d subs=%+v", isValue, nwriters, n, nids, backdate, deletes, churners, len(leavers), subs)
 		for i, sp := range subs {
 			select {
 			case <-done[i]:
@@ -205,7 +292,13 @@ func TestBurstConvergence(t *testing.T) {
 				t.Fatalf("sub%d %+v: folding the %d received events does not give the store's %d items: %v\n%s", i, sp, v.n, len(want), diffs, desc)
 			}
 		}
-		lib.Ev.Class("burst: one fast writer, readers that keep receiving but lag")
+		lib.Ev.Class("burst: fast writer(s), readers that keep receiving but lag")
+		if nwriters > 1 {
+			lib.Ev.Class("burst with 2-3 writers on disjoint ids")
+		}
+		if churners > 0 {
+			lib.Ev.Class("burst while other subscribers come and go")
+		}
 		if nids >= 1100 {
 			lib.Ev.Class("burst over >1000 distinct ids")
 		}
